@@ -169,3 +169,85 @@ def runEpochsDens (T : Transc α) (rnd : α → α) (P : Params α) (hd tl : Arr
 end
 end Sgd
 end Umap
+
+namespace Umap
+namespace Sgd
+
+section
+variable {α : Type} [Add α] [Sub α] [Mul α] [Div α] [Neg α] [LT α] [LE α]
+  [DecidableLT α] [DecidableLE α] [OfNat α 0] [OfNat α 1] [NatCast α] [Inhabited α]
+
+/-! ### the generic-output-metric kernel (layouts.py `_optimize_layout_generic_single_epoch`) -/
+
+/-- membership weight of the low-dimensional curve at distance `d`: `1 / (1 + a d^(2b))`, `1` at 0. -/
+def wl (T : Transc α) (a b d : α) : α :=
+  if 0 < d then T.pow (1 + a * T.pow d (((2 : Nat) : α) * b)) (-1) else 1
+
+/-- attractive move of the generic kernel: `grad_coeff = 2b (w_l - 1) / (d + 1e-6)`, each coordinate
+    moved by `clip(grad_coeff * grad[d]) * alpha`; with `move_other` the tail moves along the
+    gradient taken from the other side (computed *before* any move). -/
+def genAttractMove (T : Transc α) (rnd : α → α) (P : Params α) (eps6 alpha : α)
+    (metric : Array α → Array α → α × Array α) (j k : Nat) (s : State α) : State α :=
+  let cur := s.head[j]!
+  let oth := tailRow P s k
+  let (d, g) := metric cur oth
+  let (_, gr) := metric oth cur
+  let gc := ((2 : Nat) : α) * P.b * (wl T P.a P.b d - 1) / (d + eps6)
+  (List.range P.dim).foldl (fun s dd =>
+    let c := s.head[j]![dd]!
+    let s := setHead s j dd (rnd (c + clip (gc * g[dd]!) * alpha))
+    if P.moveOther then
+      let o := (tailRow P s k)[dd]!
+      setTail P s k dd (rnd (o + clip (gc * gr[dd]!) * alpha))
+    else s) s
+
+/-- one negative sample of the generic kernel: `grad_coeff = γ 2b w_l / (d + 1e-6)`. -/
+def genNegSample (T : Transc α) (rnd : α → α) (P : Params α) (eps6 alpha : α)
+    (metric : Array α → Array α → α × Array α) (j : Nat) (s : State α) : State α :=
+  let (st', k) := Rng.drawVertex s.rng[j]! P.nVertices
+  let s := { s with rng := s.rng.set! j st' }
+  let (d, g) := metric s.head[j]! (tailRow P s k)
+  if ¬ (0 < d) ∧ j = k then s else
+  let w := wl T P.a P.b d
+  let gc := P.gamma * ((2 : Nat) : α) * P.b * w / (d + eps6)
+  (List.range P.dim).foldl (fun s dd =>
+    let c := s.head[j]![dd]!
+    setHead s j dd (rnd (c + clip (gc * g[dd]!) * alpha))) s
+
+def genEdgeStep (T : Transc α) (rnd : α → α) (P : Params α) (eps6 : α)
+    (metric : Array α → Array α → α × Array α) (hd tl : Array Nat) (eps epns : Array α)
+    (alpha : α) (n : Nat) (s : State α) (i : Nat) : State α :=
+  if s.eons[i]! ≤ (n : α) then
+    let j := hd[i]!
+    let k := tl[i]!
+    let s := genAttractMove T rnd P eps6 alpha metric j k s
+    let s := { s with eons := s.eons.set! i (s.eons[i]! + eps[i]!) }
+    let nNeg := T.trunc (((n : α) - s.eonns[i]!) / epns[i]!)
+    let s := (List.range nNeg.toNat).foldl (fun s _ => genNegSample T rnd P eps6 alpha metric j s) s
+    { s with eonns := s.eonns.set! i (s.eonns[i]! + T.ofInt nNeg * epns[i]!) }
+  else s
+
+def genEpoch (T : Transc α) (rnd : α → α) (P : Params α) (eps6 : α)
+    (metric : Array α → Array α → α × Array α) (hd tl : Array Nat) (eps epns : Array α)
+    (alpha : α) (n : Nat) (s : State α) : State α :=
+  (List.range eps.size).foldl (genEdgeStep T rnd P eps6 metric hd tl eps epns alpha n) s
+
+/-- the generic epoch loop; same learning-rate rule as the euclidean one. -/
+def genRunEpochs (T : Transc α) (rnd : α → α) (P : Params α) (eps6 : α)
+    (metric : Array α → Array α → α × Array α) (hd tl : Array Nat) (eps epns : Array α)
+    (alpha0 : α) (N : Nat) (s : State α) : State α :=
+  (List.range N).foldl (fun s n => genEpoch T rnd P eps6 metric hd tl eps epns (alphaAt alpha0 N n) n s) s
+
+/-! ### the parametric variant's edge replication (parametric_umap.py `get_graph_elements`) -/
+
+/-- `epochs_per_sample = n_epochs * weight` (weights below `max / n_epochs` zeroed first), each
+    edge repeated `int(epochs_per_sample)` times. -/
+def parametricRepeats (T : Transc α) (ws : List α) (nEpochs : Nat) : List Nat :=
+  let wmax := maxL (ws.headD 0) ws
+  ws.map fun w =>
+    let w' := if w < wmax / (nEpochs : α) then 0 else w
+    (T.trunc ((nEpochs : α) * w')).toNat
+
+end
+end Sgd
+end Umap
